@@ -57,7 +57,18 @@ def run(env, rep):
             rep.check("C04.R1", "%s|cast:%s->%s" % (b.pretty, stable(a), to), ok,
                       "narrowing cast of %s in %s fits %s" % (stable(a), d, to),
                       "%s in %s is cast to %s without a guard: a longer value would be written with a truncated length and the output could not be decoded" % (stable(a), d, to), span)
-    rep.floor("C04.R1", "narrowing length casts in the AMF0 encoder", n, 3)
+    # every length the encoder writes goes through one of the conversions checked above or through a conversion that cannot
+    # truncate (TryFrom): count the length fields of the output grammar, so that the rule cannot pass on an encoder it does not see
+    n_len = 0
+    for b in fns:
+        ex = grammar.emitted(env, b.key)
+        roles = set()
+        for p in grammar.ok_paths(ex):
+            for t in p:
+                if len(t) >= 5 and t[1] == "hole" and amf0.canon_role(t[2]).startswith("len:"):
+                    roles.add((t[0], amf0.canon_role(t[2])))
+        n_len += len(roles)
+    rep.floor("C04.R1", "length fields written by the AMF0 encoder (each converted by a checked cast or TryFrom)", n_len, 3)
     # ---- R2 reserved name length
     table, adt = amf0.encoder_functions(env, rep, "C04.R2")
     if table:
@@ -110,7 +121,7 @@ def run(env, rep):
         n3 = 0
         for variant, fnp in sorted(table.items()):
             eb = body_by_pretty(prog, fnp)
-            alts = sorted({amf0.norm_write_path(p) for p in grammar.ok_paths(grammar.emitted(env, eb.key))})
+            alts = amf0.canon_loops({amf0.norm_write_path(p) for p in grammar.ok_paths(grammar.emitted(env, eb.key))})
             if not alts:
                 continue
             m = re.match(r"^u8=(\d+)", alts[0])
@@ -125,8 +136,8 @@ def run(env, rep):
                 rep.bad("C04.R3", "agree:%s" % variant, "marker %d written for %s is dispatched to %s by the decoder" % (marker, variant, parsers or "no parser"), eb.span)
                 continue
             db = body_by_pretty(prog, parsers[0])
-            oks = grammar.ok_paths(grammar.reads(env, db.key, all_local_calls=True))
-            dreads = sorted({amf0.norm_read_path(p) for p in oks})
+            oks = grammar.ok_paths(grammar.reads(env, db.key, all_local_calls=True, inline=True, inline_pred=(lambda cb, t, _u={tg for tgs in disp.values() for k_, tg in tgs if k_ == 'call'} | {'deserialization::read_next_value', 'deserialization::parse_object_property', 'deserialization::parse_object'}: cb.pretty not in _u)))
+            dreads = amf0.canon_loops({amf0.norm_read_path(p) for p in oks})
             cons = {t[1] for p in oks for t in amf0.returns_of(p)}
             want_reads = set()
             for a in alts:
@@ -134,14 +145,13 @@ def run(env, rep):
                 body = re.sub(r"u16be\(len:(\w+)\) bytes:\1", "u16be exact:prev", body)
                 body = re.sub(r"(u\d+(?:be|le)?)\((?:len:|bool:)?\w+\)", r"\1", body)
                 body = re.sub(r"f64be\(\w+\)", "f64be", body)
-                body = body.split(" *")[0] + (" *" if " *" in body else "")
                 want_reads.add(body.strip())
             if variant == "Object":
                 good = any("<parse_object_property>" in d for d in dreads)
             elif variant == "Boolean":
                 good = all(d.startswith("u8") for d in dreads) and bool(dreads)
             else:
-                good = want_reads <= set(dreads) | {d.replace(" *", "") for d in dreads} and all((d in want_reads) or (d + " *" in want_reads) or (d.replace(" <VALUE>", "") in want_reads) for d in dreads)
+                good = want_reads == set(dreads)
             okc = bool(cons) and all("Amf0Value::%s" % variant in c for c in cons)
             rep.check("C04.R3", "agree:%s" % variant, good and okc,
                       "marker %d: encoder writes %s, decoder (%s) reads %s and builds %s" % (marker, alts, parsers[0].split("::")[-1], dreads, variant),
